@@ -517,7 +517,8 @@ func (w *vWorld) setup(kind int) {
 		if kind == suAwake {
 			pr := vSNPacket(vtPINGREQ, 0)
 			w.stepSN(pr)
-			vAssume(vAnd(w.err == nil, h.state.Get() == util.StateAwake))
+			// (after the wake-up PINGRESP the client counts as asleep again)
+			vAssume(vAnd(w.err == nil, vOr(h.state.Get() == util.StateAwake, h.state.Get() == util.StateAsleep)))
 		}
 	}
 }
